@@ -50,6 +50,16 @@ func globToRe(g string) *regexp.Regexp {
 	return regexp.MustCompile("^" + strings.Join(parts, ".*") + "$")
 }
 
+// IsClaimed reports whether some claim of the file covers the obligation name.
+func (cf *ClaimsFile) IsClaimed(name string) bool {
+	for i := range cf.Claims {
+		if cf.Claims[i].matches(name) {
+			return true
+		}
+	}
+	return false
+}
+
 func (c *Claim) matches(name string) bool {
 	if !globToRe(c.Match).MatchString(name) {
 		return false
@@ -191,7 +201,7 @@ func Decide(env *Env, cf *ClaimsFile, res *Result, replay func(o *Obl)) *Verdict
 		if o.Status == Discharged {
 			continue
 		}
-		if o.Status == Refuted && replay != nil && o.Replay == nil {
+		if (o.Status == Refuted || (o.Status == Unknown && o.ReplayKind == "compile-probe")) && replay != nil && o.Replay == nil {
 			replay(o)
 		}
 		if k := kf.match(cf.Property, o); k != nil {
